@@ -16,20 +16,26 @@ NearOk(nr) ==
                /\ ~FrameAt(nr, 0, Len(nr)).is
                /\ LET evs == D!Run(D!InitDec(D!CapInf), nr).evs IN
                   Len(evs) = 1 /\ evs[1][1] = Len(nr) /\ evs[1][2].k \in {"invmsg", "invesc"}
-RECURSIVE Layout(_, _, _, _, _, _)
-\* slots <<kind, pos, arg>>: kind "disc" (arg n), "err" (a near-frame ends at pos), "val" (arg file index), "eof" (arg n)
-Layout(files, noise, near, i, off, acc) ==
-  LET g == noise[i] nr == near[i]
+RECURSIVE Layout(_, _, _, _, _, _, _)
+\* slots <<kind, pos, arg>>: kind "disc" (arg n), "err" (a near-frame ends at pos), "val" (arg file index), "eof" (arg n).
+\* Between two files (and before the first / after the last): noise[i], then optionally a near-frame near[i], then
+\* - only behind a near-frame - more noise post[i].
+Layout(files, noise, near, post, i, off, acc) ==
+  LET g == noise[i] nr == near[i] ps == post[i]
       a1 == IF Len(g) > 0 /\ (Len(nr) > 0 \/ i <= Len(files)) THEN Append(acc, <<"disc", off + Len(g) + 8, Len(g)>>) ELSE acc
       a2 == IF Len(nr) > 0 THEN Append(a1, <<"err", off + Len(g) + Len(nr), 0>>) ELSE a1
       o2 == off + Len(g) + Len(nr)
+      a3 == IF Len(ps) > 0 /\ i <= Len(files) THEN Append(a2, <<"disc", o2 + Len(ps) + 8, Len(ps)>>) ELSE a2
+      o3 == o2 + Len(ps)
   IN IF i > Len(files)
-     THEN [slots |-> IF Len(g) > 0 /\ Len(nr) = 0 THEN Append(a2, <<"eof", o2, Len(g)>>) ELSE a2, T |-> o2]
-     ELSE LET f == Canonical(files[i]) IN Layout(files, noise, near, i + 1, o2 + Len(f), Append(a2, <<"val", o2 + Len(f), i>>))
+     THEN LET left == IF Len(nr) = 0 THEN Len(g) ELSE Len(ps) IN
+          [slots |-> IF left > 0 THEN Append(a3, <<"eof", o3, left>>) ELSE a3, T |-> o3]
+     ELSE LET f == Canonical(files[i]) IN Layout(files, noise, near, post, i + 1, o3 + Len(f), Append(a3, <<"val", o3 + Len(f), i>>))
 
-RECURSIVE Concat(_, _, _, _)
-Concat(files, noise, near, i) ==
-  IF i > Len(files) THEN noise[i] \o near[i] ELSE noise[i] \o near[i] \o Canonical(files[i]) \o Concat(files, noise, near, i + 1)
+RECURSIVE Concat(_, _, _, _, _)
+Concat(files, noise, near, post, i) ==
+  IF i > Len(files) THEN noise[i] \o near[i] \o post[i]
+  ELSE noise[i] \o near[i] \o post[i] \o Canonical(files[i]) \o Concat(files, noise, near, post, i + 1)
 
 PosOk(p, q) == p = -1 \/ p = q
 EvOk2(e, exp) == Len(e) = Len(exp) /\ PosOk(e[1], exp[1]) /\ SubSeq(e, 2, Len(e)) = SubSeq(exp, 2, Len(exp))
@@ -54,10 +60,10 @@ StripPos(res) == IF Len(res) = 3 /\ res[2] = 0 THEN <<res[1], 0, SubSeq(res[3], 
                  ELSE IF Len(res) = 3 /\ res[2] = 10 THEN <<res[1], 10>> ELSE res
 
 Mon(r) ==
-  LET lay == Layout(r.files, r.noise, r.near, 1, 0, <<>>) IN
-  /\ Len(r.noise) = Len(r.files) + 1 /\ Len(r.near) = Len(r.noise)
-  /\ \A x \in 1..Len(r.near) : NearOk(r.near[x])
-  /\ r.stream = Concat(r.files, r.noise, r.near, 1)
+  LET lay == Layout(r.files, r.noise, r.near, r.post, 1, 0, <<>>) IN
+  /\ Len(r.noise) = Len(r.files) + 1 /\ Len(r.near) = Len(r.noise) /\ Len(r.post) = Len(r.noise)
+  /\ \A x \in 1..Len(r.near) : NearOk(r.near[x]) /\ (r.near[x] = <<>> => r.post[x] = <<>>)
+  /\ r.stream = Concat(r.files, r.noise, r.near, r.post, 1)
   /\ Len(r.res) = Len(r.calls) /\ Len(r.hand) = Len(r.calls)
   /\ Len(r.calls) >= Len(lay.slots) + 1                       \* at least one call past the end
   /\ \A j \in 1..Len(r.calls) :
